@@ -45,7 +45,7 @@ theorem inv_start (cfg : Cfg) (base : St) (v3 : Bool) :
     Inv cfg (start cfg base).st (seeStep { v3 := v3 } (start cfg base)) := by
   obtain ⟨f1, f2, f3⟩ := start_facts cfg base
   rw [seeStep_quiet _ _ f2 rfl, f1, fold_connect]
-  refine .inr (.inr ⟨⟨?_, ?_, ?_⟩, ?_, ?_⟩)
+  refine inv_core ⟨⟨?_, ?_, ?_⟩, ?_, ?_⟩
   · rw [f3, bot_initSt]; intro m hm; exact (List.mem_filter.mp hm).2
   · rw [f3, bot_initSt]; intro m hm; cases hm
   · intro _; rw [f3, bot_initSt]; exact ⟨rfl, by simp, rfl⟩
@@ -56,6 +56,22 @@ theorem inv_start (cfg : Cfg) (base : St) (v3 : Bool) :
     | true =>
       exact .neg rfl rfl rfl rfl rfl rfl rfl (fun _ => ⟨rfl, rfl, rfl, rfl⟩) (fun h => by cases h) rfl
     | false => exact .nocap rfl (by simp) rfl rfl rfl
+
+/-! once the server waits for a second CAP END it keeps waiting -/
+
+theorem seeOut_reopened (v : View) (o : Out) (h : v.reopened = true) : (seeOut v o).reopened = true := by
+  cases o <;> simp [seeOut, h]
+
+theorem fold_reopened (l : List Out) (v : View) (h : v.reopened = true) : (l.foldl seeOut v).reopened = true := by
+  induction l generalizing v with
+  | nil => exact h
+  | cons o os ih => simp only [List.foldl_cons]; exact ih _ (seeOut_reopened v o h)
+
+theorem seeStep_reopened (v : View) (r : StepResult) (h : v.reopened = true) : (seeStep v r).reopened = true := by
+  unfold seeStep; exact fold_reopened r.fast v h
+
+theorem srvMove_reopened {v v1 : View} {m : Msg} (mv : SrvMove v m v1) : v1.reopened = v.reopened := by
+  cases mv <;> rfl
 
 theorem preach_drained {cfg : Cfg} {base : St} {v3 : Bool} {s : St} {v : View} (r : PReach cfg base v3 s v) :
     s.fastq = [] ∧ s.ev = [] := by
@@ -69,9 +85,10 @@ theorem inv_preach {cfg : Cfg} (hd : cfg.realDriver = false) {base : St} {v3 : B
   | step r0 hna mv ih =>
     rename_i s v v1 m
     have hq := preach_drained r0
-    rcases ih with h | h | h
+    rcases ih with h | h | h | h
     · rw [hna] at h; cases h
     · exact pres_connected hd m _ h
+    · exact .inr (.inr (.inl (seeStep_reopened _ _ ((srvMove_reopened mv).trans h))))
     · cases mv
       case ping x n => exact pres_ping x n hq hna h
       case noop hdm hn => exact pres_noop _ hdm hn hq hna h
